@@ -238,7 +238,7 @@ func (e *expansionSingle) eval(cfg *Config, opts *options) (string, error) {
 		return "", err
 	}
 
-	ref := newReference(parsePathWithOpts(path, opts))
+	ref := newReference(parsePath(path, e.pathSep, opts.maxIdx, opts.enableNumKeys, opts.escapePath))
 	return ref.eval(cfg, opts)
 }
 
